@@ -165,3 +165,16 @@ MANIFEST_TEXT["C01"] = {
   "text": "Held for every generated request and fragmentation script: each written packet was accepted by a strict independent decoder and equalled the request field by field; incomplete requests were refused before writing.",
   "note": "Trusted: the reference decoder (self-tested every run), mocks. An input-space sweep, not a proof: values outside the boundary pools are only sampled by the PRNG.",
   "technique": RM + "round-trip of written bytes through an independent strict MQTT 5 decoder, boundary-value sweep + random sampling"}
+
+add("C02", "exploration",
+    "every server packet type is encoded by the independent reference encoder (every subset class of its legal properties: none, each single property with boundary values, all pairs, all-but-one, all, repeated user properties, PRNG subsets; "
+    "orders as listed / reversed / shuffled; every legal reason code from the specification's tables; short forms with remaining length 0/1/2/3) and delivered in the phase where it is legal; the values read back through the public accessors "
+    "(ConnectRsp, ConnectError, AuthRsp, SubscribeRsp, UnsubscribeRsp, PublishData, Puback/Pubrec/PubcompError, Disconnected, UserProperties) are compared with what was encoded, absent properties with the standard's defaults. "
+    "distinct = distinct (packet type, property set index, order, reason / form / size) tuples.",
+    {"quick": ["checked"], "thorough": ["checked", "fast"]},
+    {"quick": {"values_matched": 5000, "connack_decoded": 1000, "publishes_decoded": 1000, "acks_decoded": 500, "disconnects_decoded": 300}, "thorough": {"values_matched": 200000}},
+    ["a successful CONNACK announcing Subscription Identifiers unavailable is excluded (documented assertion)", "for PUBACK/PUBREC/PUBCOMP with reason < 0x80 only Ok(()) can be observed (the API exposes no success content)"])
+MANIFEST_TEXT["C02"] = {
+  "text": "Held for every generated packet: accepted, and every accessor equalled the encoded value or the standard's default.",
+  "note": "Trusted: the reference encoder (self-tested), mocks. Sweep + sampling of the property-subset space, not exhaustive over values.",
+  "technique": RM + "round trip: independent MQTT 5 encoder -> client -> public accessors, boundary-value sweep + random sampling"}
